@@ -32,11 +32,13 @@ _neg: "-" helper
 helper: NUM
 _comma: ","
 NAME: /[a-z]+/
+PAIR: LETTER "x"
+LETTER: "q"
 '''
 # statement-level building blocks (valid and invalid ones): sequences of these exercise every imported / overridden / extended /
 # template-instantiated definition
 LEXEMES = ['f ( ) ;', 'f ( 7 ) ;', 'f ( g , 7 ) ;', 'pass ;', '[ f ] ;', '[ f , xy ] ;', 'f ( - 7 ) ;', 'f ( ( g ) ) ;', 'f ( = ) ;', 'f ( ) xy ;',
-           'f ( g ; 7 ) ;', '7 ( ) ;', 'f ( 7 7 ) ;', 'f ( - xy ) ;', '[ 7 ] ;', 'f ( 7 , ) ;']
+           'f ( g ; 7 ) ;', '7 ( ) ;', 'f ( 7 7 ) ;', 'f ( - xy ) ;', '[ 7 ] ;', 'f ( 7 , ) ;', '! qx ;', '! wx ;', '! qx wx ;']
 
 
 def _defs(text):
@@ -125,6 +127,9 @@ def assemble(c):
         main_rules.append('lexpr: %s | "7"' % (N or 'LNAME'))
     if not N:
         main_rules.append('LNAME: /[a-z]+/')
+    if c.get('imp_pair'):
+        # a terminal built from another terminal of the module; the inner one may be extended / overridden by the importer
+        main_rules.insert(4, '    | "!" PAIR+ ";" -> pairs')
     main_rules.append('_sep{x, s}: x (s x)*')
     main_rules.append('lst{t}: "[" _sep{t, ","} "]"')
     if c['local_helper']:
@@ -140,6 +145,12 @@ def assemble(c):
         directives.append('%%override %s: %s | "7" | "(" %s ")"' % (E, N or 'LNAME', E))
     if c['extend'] and A:
         directives.append('%%extend %s: "=" ' % A)
+    if c.get('imp_pair'):
+        directives.append('%import .lib (PAIR, LETTER)')
+        if c.get('pair_mod') == 1:
+            directives.append('%extend LETTER: "w"')
+        elif c.get('pair_mod') == 2:
+            directives.append('%override LETTER: "w"')
     main = '\n'.join(main_rules + directives + ['%ignore " "']) + '\n'
 
     # reference: textual inlining
@@ -150,9 +161,20 @@ def assemble(c):
         all_defs = _inline_module(LIB, modules, mangle)
         keep = _reachable(all_defs, imports.values())
         flat_defs = {n: d for n, d in all_defs.items() if n in keep}
+    if c.get('imp_pair'):
+        modules = {'lib': LIB, 'lib2': LIB2}
+        imports2 = dict(imports, PAIR='PAIR', LETTER='LETTER')
+        all_defs = _inline_module(LIB, modules, _mangler('lib', imports2))
+        keep = _reachable(all_defs, imports2.values())
+        flat_defs = {n: d for n, d in all_defs.items() if n in keep}
+        if c.get('pair_mod') == 1:
+            m_, p_, pr_, body_ = flat_defs['LETTER']
+            flat_defs['LETTER'] = (m_, p_, pr_, body_ + ' | "w"')
+        elif c.get('pair_mod') == 2:
+            flat_defs['LETTER'] = ('', '', '', ' "w"')
     if c['override'] and E:
         flat_defs[E] = ('', '', '', ' %s | "7" | "(" %s ")"' % (N or 'LNAME', E))
-        keep = _reachable(flat_defs, list(imports.values()))
+        keep = _reachable(flat_defs, list(imports.values()) + (['PAIR', 'LETTER'] if c.get('imp_pair') else []))
         flat_defs = {n: d for n, d in flat_defs.items() if n in keep}
     if c['extend'] and A:
         m, p, pr, body = flat_defs[A]
@@ -188,6 +210,8 @@ if P:
     L = P['L']
     K = len(LEXEMES)
     BITS = ['imp_args', 'imp_expr', 'imp_terms', 'alias', 'override', 'extend', 'local_helper']
+    KAT = P.get('kat', False)
+    PAIRMODE = P.get('pairmode')       # None: PAIR not imported; 0: imported; 1: + %extend LETTER; 2: + %override LETTER
     CACHE = {}
     PARSER = P.get('parser', 'lalr')
     PINC = P.get('cfg')
@@ -195,8 +219,12 @@ if P:
     def built(ci):
         if ci not in CACHE:
             c = {b: bool((ci >> k) & 1) for k, b in enumerate(BITS)}
+            if PAIRMODE is not None:
+                c['imp_pair'] = True
+                c['pair_mod'] = PAIRMODE
             main, flat = assemble(c)
-            CACHE[ci] = (c, main, flat, Lark(main, parser=PARSER, source_path=os.path.join(SCRATCH, 'main.lark')), Lark(flat, parser=PARSER))
+            CACHE[ci] = (c, main, flat, Lark(main, parser=PARSER, source_path=os.path.join(SCRATCH, 'main.lark'), keep_all_tokens=KAT),
+                         Lark(flat, parser=PARSER, keep_all_tokens=KAT))
         return CACHE[ci]
 
 
